@@ -14,6 +14,9 @@ COQ = os.path.join(ROOT, "coq")
 WORK = os.path.join(ROOT, "work")
 NPROC = min(16, os.cpu_count() or 4)
 GUARD = "clap_verif"
+# The registered checks always run against /repo.  VERIF_REPO points a *scratch copy* of this framework at a scratch
+# worktree of clap (used only to try seeded changes without touching /repo; see DESIGN.md section 13).
+REPO = os.environ.get("VERIF_REPO", "/repo").rstrip("/") or "/repo"
 
 ALLOWED_AXIOMS = {
     # standard-library axioms only; none is needed so far, listed for the day one is
@@ -47,7 +50,17 @@ def sh(cmd, timeout=1200, cwd=ROOT, env=None, stdin=None):
 def build_harness(profile="debug"):
     """Build the Rust harness against /repo's current working tree (hooks on)."""
     hdir = os.path.join(ROOT, "harness")
-    lock_src = "/repo/Cargo.lock"
+    if REPO != "/repo":
+        # same sources, path dependencies rewritten to the scratch worktree, separate target directory
+        alt = os.path.join(WORK, "harness-alt")
+        os.makedirs(alt, exist_ok=True)
+        toml = open(os.path.join(hdir, "Cargo.toml")).read().replace('"/repo', '"' + REPO)
+        if not os.path.exists(os.path.join(alt, "Cargo.toml")) or open(os.path.join(alt, "Cargo.toml")).read() != toml:
+            open(os.path.join(alt, "Cargo.toml"), "w").write(toml)
+        if not os.path.islink(os.path.join(alt, "src")):
+            os.symlink(os.path.join(hdir, "src"), os.path.join(alt, "src"))
+        hdir = alt
+    lock_src = REPO + "/Cargo.lock"
     lock_dst = os.path.join(hdir, "Cargo.lock")
     if not os.path.exists(lock_dst):
         with open(lock_src) as f, open(lock_dst, "w") as g:
